@@ -1,5 +1,6 @@
 pub mod engine;
 pub mod flavours;
+pub mod fuzzcodec;
 pub mod gen;
 pub mod guard;
 pub mod json;
